@@ -731,6 +731,20 @@ def run(ck, C2M, WORK, drv, runcmd, cases, QUICK, layout_eval):
             out.append((None, pre + [t]))
         return out, len(aggs)
 
+    def boundary_protos():
+        """each register-class pattern behind every count 0..9 of INTEGER scalars and of SSE scalars (and the
+        3x3 grid around 6 / 8), followed by one long and one double: the aggregate ends one before, exactly at
+        and one past the last register of each file; both call directions, both engines"""
+        L, D = ("sc", "long"), ("sc", "double")
+        pats = {"I": [L], "S": [D], "II": [L, L], "SS": [D, D], "IS": [L, D], "SI": [D, L]}
+        pairs = [(i, 0) for i in range(10)] + [(0, f) for f in range(1, 10)] + [(i, f) for i in (4, 5, 6) for f in (6, 7, 8)]
+        out = []
+        for name, ms in pats.items():
+            t = ("agg", False, [("p", m) for m in ms])
+            for ni, nf in pairs:
+                out.append((None, [L] * ni + [D] * nf + [t, L, D]))
+        return out
+
     cps = [proto_from_str(c["proto"]) for c in cases if c.get("expect") != "pass"]
     if cps:
         process(cps, "corpus")
@@ -741,6 +755,13 @@ def run(ck, C2M, WORK, drv, runcmd, cases, QUICK, layout_eval):
         stats["regressions_replayed"] = len(regs)
         stats["regressions_failing"] = sum(n - before.get(k, 0) for k, n in stats["classes"].items()
                                            if k.startswith("C08:regression-of-fixed-finding:"))
+    if not ck.replay:
+        bp = boundary_protos()
+        before = stats["protos"]
+        for i in range(0, len(bp), 84):
+            process(bp[i:i + 84], f"boundary {i}")
+        stats["boundary"] = {"protos": stats["protos"] - before,
+                             "rule": "6 class patterns (I,S,II,SS,IS,SI) x {0..9 long} u {0..9 double} u {4,5,6}x{6,7,8} preceding scalars, then long, double"}
     if not ck.replay:
         nb, per = (2, 60) if QUICK else (12, 100)
         for i in range(nb):
